@@ -115,6 +115,7 @@ type Agg struct {
 	NonTriv int            `json:"nontriv"`
 	Cover   map[string]int `json:"cover,omitempty"`
 	Samples []any          `json:"samples,omitempty"`
+	Inconcl []string       `json:"inconcl,omitempty"`
 }
 
 func (d *Driver) AddAgg(a *Agg) {
@@ -132,6 +133,11 @@ func (d *Driver) AddAgg(a *Agg) {
 	for _, s := range a.Samples {
 		if len(d.Samples) < 8 {
 			d.Samples = append(d.Samples, s)
+		}
+	}
+	for _, s := range a.Inconcl {
+		if len(d.Inconcl) < 20 {
+			d.Inconcl = append(d.Inconcl, s)
 		}
 	}
 }
@@ -618,6 +624,9 @@ func WorkerMain(p Prop, env *Env, tag string) {
 			}
 			for _, v := range r.viol {
 				fmt.Fprintf(out, "V %s\n", mustJSON(v))
+			}
+			for _, s := range r.inconcl {
+				ag.Inconcl = append(ag.Inconcl, fmt.Sprintf("case %d: %s", i, s))
 			}
 			if ag.N >= 2000 {
 				flush()
